@@ -49,6 +49,10 @@ def size_of(t):
         return size_of(t[2])
     if k in ("zx", "sx"):
         return t[2]
+    if k == "mem":  # ['mem', addr-tree, disp, size]   (C12/C13 only)
+        return t[3]
+    if k == "vec":  # ['vec', [members of equal size]]  (C12 only)
+        return size_of(t[1][0])
     raise ValueError(t)
 
 
@@ -190,6 +194,10 @@ def build(t):
         return build(t[1]).zeroextend(t[2])
     if k == "sx":
         return build(t[1]).signextend(t[2])
+    if k == "mem":
+        return E.mem(build(t[1]), t[3], disp=t[2])
+    if k == "vec":
+        return E.vec([build(x) for x in t[1]])
     if k == "bin":
         op = t[1]
         l = build(t[2])
@@ -256,7 +264,7 @@ def regs_of(t, acc=None):
     acc = {} if acc is None else acc
     if t[0] == "reg":
         acc[t[1]] = t[2]
-    elif t[0] == "cmp":
+    elif t[0] in ("cmp", "vec"):
         for p in t[1]:
             regs_of(p, acc)
     else:
@@ -270,7 +278,7 @@ def children(t):
     k = t[0]
     if k in ("reg", "cst"):
         return []
-    if k == "cmp":
+    if k in ("cmp", "vec"):
         return list(t[1])
     return [x for x in t[1:] if isinstance(x, (list, tuple))]
 
@@ -380,9 +388,11 @@ def gen_tree(rnd, size, d, signed_ops=True):
                 r = ["cst", rnd.randrange(size), size]
             else:
                 r = ["reg", "rot%d" % size, size]  # valuation is drawn < width
-        elif op in SHIFTS and rnd.random() < 0.65:
+        elif op in SHIFTS and rnd.random() < 0.6:
             amts = [0, 1, size - 1, size, size + 1, 2 * size, rnd.randrange(2 * size + 2), M(size)]
             r = ["cst", amts[rnd.randrange(len(amts))] & M(size), size]
+        elif op in SHIFTS and rnd.random() < 0.6:
+            r = ["reg", "sh%d" % size, size]  # dedicated amount register, valuation biased to boundary amounts
         else:
             r = gen_tree(rnd, size, d - 1, signed_ops)
         return ["bin", op, l, r]
@@ -390,7 +400,7 @@ def gen_tree(rnd, size, d, signed_ops=True):
         return ["un", "~-"[rnd.randrange(2)], gen_tree(rnd, size, d - 1, signed_ops)]
     if c < 0.58:
         big = size + rnd.randrange(1, 17)
-        pos = rnd.randrange(big - size + 1)
+        pos = rnd.randrange(big - size + 1) if rnd.random() < 0.6 else 0
         return ["slc", gen_tree(rnd, big, d - 1, signed_ops), pos, size]
     if c < 0.67 and size >= 2:
         k = rnd.randrange(1, size)
@@ -439,6 +449,11 @@ def gen_env(rnd, regs):
     for k, s in sorted(regs.items()):
         if k.startswith("rot"):
             env[k] = rnd.randrange(s)
+            continue
+        if k.startswith("sh"):
+            c = rnd.randrange(8)
+            small = rnd.randrange(0, 2 * s + 2)
+            env[k] = [0, 1, s - 1, s, s + 1, small, (1 << rnd.randrange(s)) | rnd.randrange(0, min(s, 8)), M(s)][c] & M(s)
             continue
         c = rnd.randrange(7)
         env[k] = [0, 1, M(s), 1 << (s - 1), (1 << (s - 1)) - 1, rnd.getrandbits(s), rnd.getrandbits(s)][c]
